@@ -794,7 +794,11 @@ func (c *Ctx) Eval(t *Term, asg map[string]uint64, memo map[*Term]uint64) uint64
 	case OpConst:
 		r = t.Val
 	case OpVar:
-		r = asg[t.Name] & maskB(t.W)
+		v, ok := asg[t.Name]
+		if !ok && t.W == 8 {
+			v = 'a' // unconstrained bytes default to a printable value
+		}
+		r = v & maskB(t.W)
 	case OpNot:
 		r = 1 - a(0)
 	case OpAnd:
